@@ -413,6 +413,10 @@ def c18_cases(tier):
                 if kind == "layout_alias" and lang == "c":
                     continue  # C spells an alias `typedef struct LayoutInfo TypeLayout;`: outside what the tool documents
                 add("foreign", "foreign:%s" % kind, wrapped_model(ctxs, w, "Box", [kind]), lang)
+    # S3c a library that exports runtime helper types and plain functions but NO object or group, with and without a user of
+    #     `const TypeLayout *` (C: the tool supplies the forward declaration whatever else the header contains)
+    for fk in (["runtime_only"], ["runtime_only", "layout_undeclared"], ["runtime_only", "layout_struct"]):
+        add("foreign", "foreign:no_objects:%s" % "+".join(fk[1:] or ["plain"]), model([], [], [], foreign=fk), "c")
     # S4 configuration keys: every combination, on a header in which some objects match and some do not
     cm = config_model()
     for cfg in all_configs():
